@@ -52,6 +52,31 @@ func oracleC01Once(p *Pair, env *Env, a [][]byte) *Failure {
 	}
 	flat, flags := string(pr.Out[0]), string(pr.Out[1])
 	prefixes, suffixes := splitLinesField(pr.Out[2]), splitLinesField(pr.Out[3])
+	// the plain reading starts from an independent reading of includes and definitions (the by-hand reading of
+	// C05–C07) whenever that reading covers the program: a parser defect then shows as a language difference here too
+	if hl, err := inlineLinesByHand(filesFromTriples(a[7:]), handLines(string(a[6])), 0); err == nil {
+		if hl, err = expandDefsByHand(hl); err == nil {
+			var fl []string
+			var pre, suf []string
+			for _, l := range hl {
+				switch {
+				case hFlags.MatchString(l):
+				case hPrefix.MatchString(l):
+					pre = append(pre, hPrefix.FindStringSubmatch(l)[1])
+				case hSuffix.MatchString(l):
+					suf = append(suf, hSuffix.FindStringSubmatch(l)[1])
+				case strings.TrimSpace(l) == "" || hComment.MatchString(l):
+				default:
+					fl = append(fl, l)
+				}
+			}
+			handFlat := ""
+			if len(fl) > 0 {
+				handFlat = strings.Join(fl, "\n") + "\n"
+			}
+			flat, prefixes, suffixes = handFlat, pre, suf
+		}
+	}
 	plain, altLists, err := plainReadingAlts(flat, prefixes, suffixes, cfg)
 	if err != nil {
 		return &Failure{What: "harness: generated program is not well-formed: " + err.Error(), Detail: fmt.Sprintf("%q", a[6])}
